@@ -220,9 +220,25 @@ def c07_c(ctx: Ctx):
     if not first or canon(first[0].value) != "self._filter":
         return [ctx.viol(R, gb, gb.node, "groupby does not start from the cursor's own filter")]
     out.append(ctx.ok(R, gb, first[0], "groupby starts from the cursor's filter"))
+    import copy as _copy
+
+    def _expand(v, at):
+        """write out plain locals (other than the filter variable) by their unique reaching definition"""
+        class _S(ast.NodeTransformer):
+            def visit_Name(self, node):
+                if isinstance(node.ctx, ast.Load) and node.id != FV and node.id not in gb.params:
+                    try:
+                        ds = common.reaching_defs(ctx, gb, node.id, at)
+                    except Exception:
+                        return node
+                    if len(ds) == 1 and isinstance(ds[0], (ast.Dict, ast.DictComp)):
+                        return ast.copy_location(_copy.deepcopy(ds[0]), node)
+                return node
+        return _S().visit(_copy.deepcopy(v))
+
     for a in first[1:]:
         facts = common.facts_at(ctx, gb, a, "n")
-        v = a.value
+        v = _expand(a.value, a)
         t = canon(v)
         if (FV + " is None", True) in facts:
             if "$exists" in t:
